@@ -218,7 +218,7 @@ PROPS["C02"] = dict(
                                              g1("running", PY39, "py39", thorough_only=True, vendor=True),
                                              g1("running", PY312, "py312", 3, True, stride=40)],
     technique=BOUNDED_TECH,
-    explanation='Deductive sub-lemma: inside inspect_frame (3.11+), a frame that is executing (stacktop == -1) has its value stack cut to the depth of the FIRST exception-table entry covering f_lasti, computed in the same validated attempt, 0 if none covers it (C02.trim, C02.first_covering_entry_scan); on 3.9/3.10 (statements selected by pattern from the other inspect_frame, 3.10 configuration) a running frame\'s raw stack is cut to the deepest level any recorded block needs (0 without blocks) before any slot is turned into an object reference, NULL slots become None, and a suspended frame\'s slots are looked up among the frame\'s gc referents by address (never cast), None when no referent lives there; everything else is the bounded stand-in.',
+    explanation='Deductive sub-lemma: inside inspect_frame (3.11+), a frame that is executing (stacktop == -1) has its value stack cut to the depth of the FIRST exception-table entry covering f_lasti, computed in the same validated attempt, 0 if none covers it (C02.trim, C02.first_covering_entry_scan); on 3.9/3.10 (statements selected by pattern from the other inspect_frame, 3.10 configuration) a running frame\'s raw stack is cut to the deepest level any recorded block needs (0 without blocks) before any slot is turned into an object reference, NULL slots become None, and a suspended frame\'s slots are looked up among the frame\'s gc referents by address (never cast), None when no referent lives there; Because every frame inward of a re-entrant extraction gets its contexts only if the per-thread options survive it, ExtractOptions.push (restores both fields on every exit) and the options leg run here too. c02_exit_names: the exiting manager is identified whatever its exit function is called (aliased, decorated with an explicit self, inherited, lambda, async alias) for every way of leaving the block; everything else is the bounded stand-in.',
     claim="Bounded stand-in: the same family probed from inside every __enter__/__exit__/__aenter__/__aexit__ invocation and every body call "
           "of running coroutines, generators and async generators (extract_since on the running frame): a manager being entered is not yet "
           "listed, one being exited is listed last with is_exiting and obj set, for every way of leaving the block.",
@@ -262,7 +262,7 @@ PROPS["C06"] = dict(
     legs=[dict(name="c13_options", cmd="PYTHONPATH={repo} " + PY312 + " legs/c13_options.py"), g1("twin", PY312, "py312"), g1("twin", PY311, "py311", thorough_only=True),
           dict(name="c07_preempt", cmd="PYTHONPATH={repo} " + PY312 + " legs/c07_preempt.py")],
     technique=BOUNDED_TECH + " (twin runs)",
-    explanation='Deductive / syntactic part: five effect and retention obligations over the package ASTs (no resuming call on a target, no memoising decorator, no clock / RNG, module-level mutable state only in the listed places, ...); inspect_frame reads only value-stack slots below the validated depth and brackets every slot read by an f_lasti check; analyze_with_blocks hands out a fresh table of fresh templates (nothing shared between calls, so filling in obj cannot leak a manager into module state). Reference counts of the ctypes reads and crash-freedom are assumptions.',
+    explanation='Deductive / syntactic part: five effect and retention obligations over the package ASTs (no resuming call on a target, no memoising decorator, no clock / RNG, module-level mutable state only in the listed places, ...); inspect_frame reads only value-stack slots below the validated depth and brackets every slot read by an f_lasti check; analyze_with_blocks hands out a fresh table of fresh templates (nothing shared between calls, so filling in obj cannot leak a manager into module state). _contexts_active_by_referents touches its referents only through isinstance tests and the attributes of bound methods (no attribute lookup on arbitrary user objects); ExtractOptions.push and the options leg (two threads interleaved) run here too: an extraction must not disturb another one in progress. Reference counts of the ctypes reads and crash-freedom are assumptions.',
     claim="Bounded stand-in: every program of the family run twice, un-observed and with two extractions at every suspension point: identical "
           "traces, the two extractions compare equal, managers are collectable once results are dropped. Reference-count balance of the "
           "ctypes reads and crash-freedom are NOT decided (sampled only).",
